@@ -434,6 +434,9 @@ def container_method(ex, recv: VRef, name, args, kwargs, st):
     raise Unsupported(f"{k}.{name}")
 
 
+CARD = z3.Function("cardinality_of_membership_array", z3.ArraySort(z3.IntSort(), z3.BoolSort()), z3.IntSort())
+
+
 # ------------------------------------------------------------------ global builtins
 def b_len(ex, st, args, kw):
     v = args[0]
@@ -445,6 +448,11 @@ def b_len(ex, st, args, kw):
         if v.kinds[0] == "list":
             return [Res("val", lift_int(st.list_len(v.z)), st)]
     h = ex.spec.globals.get("__len__")
+    if h is None and isinstance(v, VRef) and v.kinds and v.kinds[0] in ("dict", "set"):
+        # the number of keys / members: an uninterpreted cardinality of the membership array (only: it is a function of the content and non-negative)
+        n = CARD(st.dict_dom(v.z))
+        st.assume(n >= 0)
+        return [Res("val", lift_int(n), st)]
     if h is not None:
         r = h(ex, st, v)
         if r is not None:
